@@ -217,10 +217,14 @@ def correspondence(ctx):
     tie.add('C16 gm 3 0 3', guarded(lambda: G.gellmann_matrix(0, 3, 3).reshape(-1)), 0, 'gm-assert')
     # -- analysis / synthesis / dm helpers -----------------------------------
     reps = 1 if ctx.quick() else 2
-    for hi, order in enumerate(HISTORIES):
+    scheds = [[(d, b, t) for d in dims for (b, t) in order] for order in HISTORIES]
+    # history 4: sizes AND dtypes interleaved (d then d', float32 then float64 at another size, …) in one module state
+    allt = [(d, b, t) for d in dims for (b, t) in BACKENDS]
+    scheds.append([allt[i] for i in rng.permutation(len(allt))])
+    for hi, sched in enumerate(scheds):
       G = fresh_gellmann()
-      for d in dims:
-        for backend, dt in order:
+      for d, backend, dt in sched:
+        if True:
             shp_all = shapes(ctx, rng)
             for shp in ([shp_all[int(rng.integers(len(shp_all)))]] if ctx.quick() else shp_all):
                 for _ in range(reps):
@@ -315,7 +319,7 @@ def correspondence(ctx):
     ctx.extra['executed_scalars_max_residual'] = worst
     ctx.extra['tolerance'] = (f'abs <= {TOL64}*scale for float64/complex128, {TOL32}*scale for float32/complex64 inputs (scale = max|input|*d); '
                               f'dm_to_gellmann_norm / distance2 / Bloch vectors near the maximally mixed state: relative {NORM_RTOL} + absolute {NORM_ATOL}')
-    ctx.extra['histories'] = [' -> '.join(f'{b}:{t}' for b, t in h) for h in HISTORIES]
+    ctx.extra['histories'] = [' -> '.join(f'{b}:{t}' for b, t in h) + ' (for d = 2..8 in turn)' for h in HISTORIES] + ['seeded random interleaving of all (d, backend, dtype) triples']
     ctx.extra['exhaustive'] = False
 
 
@@ -380,11 +384,14 @@ def probe(ctx):
             ctx.probe_ok(('orth2', d))
     reps = 1 if ctx.quick() else 3
     orders = HISTORIES[:2] if ctx.quick() else HISTORIES
-    for order in orders:
-      G = fresh_gellmann()      # fresh module state, then the calls in exactly this dtype order for every d
-      for d in dims:
+    scheds = [[(d, b, t) for d in dims for (b, t) in order] for order in orders]
+    allt = [(d, b, t) for d in dims for (b, t) in BACKENDS]
+    scheds.append([allt[i] for i in rng.permutation(len(allt))])      # sizes and dtypes interleaved
+    for sched in scheds:
+      G = fresh_gellmann()      # fresh module state, then the calls in exactly this order
+      for d, backend, dt in sched:
         B = basis[d]
-        for backend, dt in order:
+        if True:
             t64 = dt in ('c128', 'f64')
             tol = (1e-11 if t64 else 2e-4)
             for shp in shapes(ctx, rng):
@@ -496,7 +503,88 @@ def probe(ctx):
                         ctx.probe_ok(('dist', d, backend, dt))
     ctx.extra['probe_tolerance'] = (f'float64: 1e-11*scale (basis identities 1e-12); float32: 2e-4*scale; dm_to_gellmann_norm / distance2 in complex128: '
                                     f'relative {NORM_RTOL} + absolute {NORM_ATOL} (norm) resp. 2e-16*sqrt(d2)+1e-32 (distance2), incl. states within 1e-3..1e-12 of I/d and I/d itself')
-    ctx.extra['probe_histories'] = [' -> '.join(f'{b}:{t}' for b, t in h) for h in orders]
+    ctx.extra['probe_histories'] = [' -> '.join(f'{b}:{t}' for b, t in h) for h in orders] + ['seeded random interleaving of all (d, backend, dtype) triples']
+    probe_alias_dtype(ctx, rng)
+
+
+def probe_alias_dtype(ctx, rng):
+    """aliasing (arguments bit-identical after the call; contiguous, non-contiguous and read-only inputs; the same object used twice) and
+    integer / bool dtypes (accepted => same result as the float64 call, rejected => counted) for every public function"""
+    import numqi, torch
+    G = numqi.gellmann
+    def variants(a):
+        """name -> argument object holding the values of the numpy array `a` (complex128 or float64)"""
+        out = {'np': lambda: a.copy(), 'torch': lambda: torch.tensor(a.copy())}
+        def nc():
+            base = np.zeros(a.shape[:-1] + (2 * a.shape[-1],), dtype=a.dtype); base[..., ::2] = a; base[..., 1::2] = 7
+            return base[..., ::2]
+        out['np-noncontiguous'] = nc
+        out['torch-noncontiguous'] = lambda: torch.tensor(nc.__call__().base if False else np.ascontiguousarray(np.repeat(a, 2, axis=-1)))[..., ::2]
+        def ro():
+            b = a.copy(); b.setflags(write=False); return b
+        out['np-readonly'] = ro
+        return out
+    def same(x, y):
+        x = to_np(x); y = to_np(y)
+        return x.shape == y.shape and bool(np.array_equal(x, y, equal_nan=True))
+    for d in ([2, 3, 5] if ctx.quick() else [2, 3, 4, 5, 7]):
+        shp = (2,) if d % 2 else ()
+        A = rand_gint(rng, shp + (d, d)); v = rand_gint(rng, shp + (d * d,), real=True).real
+        rho = rand_dm_exact(rng, d, shp); u = rng.integers(-8, 9, size=shp + (d * d - 1,)) / 16.0
+        calls = [('matrix_to_gellmann_basis', lambda x: G.matrix_to_gellmann_basis(x), A),
+                 ('gellmann_basis_to_matrix', lambda x: G.gellmann_basis_to_matrix(x), v),
+                 ('dm_to_gellmann_basis', lambda x: G.dm_to_gellmann_basis(x), rho),
+                 ('gellmann_basis_to_dm', lambda x: G.gellmann_basis_to_dm(x), u)]
+        for fname, f, arg in calls:
+            ref = to_np(f(arg.copy())).astype(np.complex128)
+            for vname, mk in variants(arg).items():
+                x = mk(); x0 = to_np(x).copy()
+                y1 = guarded(lambda: to_np(f(x)))
+                y2 = guarded(lambda: to_np(f(x)))
+                rp = dict(fn=fname, d=d, variant=vname, shape=list(arg.shape), arg=[str(z) for z in np.asarray(arg).reshape(-1)])
+                if not same(x, x0):
+                    ctx.fail('argument-modified', f'{fname} modifies its argument in place ({vname}, d={d})', rp)
+                elif isinstance(y1, str) or isinstance(y2, str):
+                    ctx.fail('input-variant-raises', f'{fname} raised {y1 if isinstance(y1, str) else y2} on a {vname} input (d={d})', rp)
+                elif not same(y1, y2):
+                    ctx.fail('not-reproducible', f'{fname}: two calls on the same object differ ({vname}, d={d})', rp)
+                elif np.abs(y1.astype(np.complex128) - ref).max() > 1e-12 * max(1.0, float(np.abs(ref).max())):
+                    ctx.fail('input-variant-differs', f'{fname}: result on a {vname} input differs from the plain call (d={d})', rp)
+                else:
+                    ctx.probe_ok(('alias', fname, vname, d))
+            # integer / bool dtypes of real-valued data
+            if fname in ('matrix_to_gellmann_basis', 'gellmann_basis_to_matrix'):
+                ai = np.asarray(arg).real.round().astype(np.int64)
+                refi = to_np(f(ai.astype(np.float64))).astype(np.complex128)
+                for vname, mk in {'np-int64': lambda: ai.copy(), 'np-int32': lambda: ai.astype(np.int32), 'np-bool': lambda: (ai != 0),
+                                  'torch-int64': lambda: torch.tensor(ai), 'torch-int32': lambda: torch.tensor(ai.astype(np.int32))}.items():
+                    x = mk(); x0 = to_np(x).copy()
+                    y = guarded(lambda: to_np(f(x)))
+                    rb = to_np(f((ai != 0).astype(np.float64))).astype(np.complex128) if vname == 'np-bool' else refi
+                    rp = dict(fn=fname, d=d, variant=vname, arg=[int(z) for z in ai.reshape(-1)])
+                    if not same(x, x0):
+                        ctx.fail('argument-modified', f'{fname} modifies an integer argument in place ({vname}, d={d})', rp)
+                    elif isinstance(y, str):
+                        ctx.count('int-dtype-rejected-' + vname); ctx.probe_ok()
+                    elif np.asarray(y).shape != rb.shape or np.abs(np.asarray(y).astype(np.complex128) - rb).max() > 1e-5 * max(1.0, float(np.abs(rb).max())):
+                        ctx.fail('integer-dtype', f'{fname}: {vname} input accepted but the result differs from the float64 call (d={d})', rp)
+                    else:
+                        ctx.count('int-dtype-accepted-' + vname); ctx.probe_ok()
+        # two-argument function: both arguments untouched, call twice
+        r1 = rand_dm_exact(rng, d, ()); r2 = rand_dm_exact(rng, d, ())
+        for bk in ('np', 'torch'):
+            a1 = r1.copy() if bk == 'np' else torch.tensor(r1); a2 = r2.copy() if bk == 'np' else torch.tensor(r2)
+            z1 = guarded(lambda: float(to_np(G.get_density_matrix_distance2(a1, a2)))); z2 = guarded(lambda: float(to_np(G.get_density_matrix_distance2(a1, a2))))
+            if not (same(a1, r1) and same(a2, r2)) or isinstance(z1, str) or z1 != z2:
+                ctx.fail('argument-modified', f'get_density_matrix_distance2 modifies an argument or is not reproducible ({bk}, d={d})', dict(fn='get_density_matrix_distance2', d=d, backend=bk))
+            else:
+                ctx.probe_ok()
+        nr = rho.copy(); nr.setflags(write=False)
+        z = guarded(lambda: np.asarray(G.dm_to_gellmann_norm(nr)))
+        if isinstance(z, str):
+            ctx.fail('input-variant-raises', f'dm_to_gellmann_norm raised {z} on a read-only array (d={d})', dict(fn='dm_to_gellmann_norm', d=d))
+        else:
+            ctx.probe_ok()
 
 
 def search(ctx, hints):
